@@ -496,7 +496,7 @@ def arb_params(draw, kind, v, R, labels):
 
 @st.composite
 def tr_spec(draw, rot_classes=None, allow_abbrev=True, allow_13=True,
-            translation_only_weight=1):
+            translation_only_weight=1, allow_mirror=False):
     """A transformation as written on a TR card / inline, with labels."""
     labels = []
     o = draw(point(4.0))
@@ -508,6 +508,20 @@ def tr_spec(draw, rot_classes=None, allow_abbrev=True, allow_13=True,
         return md.trspec(o, None, star=star3, n_entries=3), labels
     cls, B = draw(rotation(rot_classes) if rot_classes else rotation())
     labels.append('rot:' + cls)
+    mirror = allow_mirror and draw(st.integers(0, 7)) == 0
+    if mirror:
+        # a left-handed auxiliary system (one axis reversed or two axes
+        # exchanged): all nine cosines are written, a = B (p - o) as for any
+        # other matrix
+        Bm = np.array(B).reshape(3, 3)
+        k = draw(st.integers(0, 5))
+        if k < 3:
+            Bm[k, :] = -Bm[k, :]
+        else:
+            i, j = [(0, 1), (1, 2), (0, 2)][k - 3]
+            Bm[[i, j], :] = Bm[[j, i], :]
+        B = [float(t) for t in Bm.reshape(9)]
+        labels.append('tr:left-handed')
     star = draw(st.booleans())
     full = to_degrees(B) if star else list(B)
     if star:
@@ -518,7 +532,8 @@ def tr_spec(draw, rot_classes=None, allow_abbrev=True, allow_13=True,
         n, m = 13, 1
         labels.append('tr:13-entries')
     mask = None
-    if allow_abbrev and n == 12 and draw(st.integers(0, 3)) == 0:
+    if allow_abbrev and n == 12 and not mirror and \
+            draw(st.integers(0, 3)) == 0:
         kind = draw(st.sampled_from(['rows6', 'cols6', 'rc5']))
         mask = [False] * 9
         if kind == 'rows6':
